@@ -116,6 +116,9 @@ func (cs *gcpClientStream) SendMsg(m interface{}) error {
 			return err
 		}
 		cs.ClientStream = realCS
+		// A creation error of an earlier attempt (or a context error recorded
+		// while waiting) must not shadow the stream that exists now.
+		cs.initStreamErr = nil
 		close(cs.created)
 	}
 	cs.Unlock()
